@@ -54,6 +54,12 @@ EDGE_TEXTS = [
     # a division by a negated chain / product (rewrites inside the negation, then the division itself)
     "x / -(a * b * c)", "y / -(a + b + c)", "y / -(x * (a + b))", "(x + 1) / -(2y * z * w)", "4 / -((a * b) * c)", "x / -(2a + 3a)", "1 / -(x * x)", "-(a + b + c) / -(a * b)",
     "sgn(a + b + c) + 1", "-(a * b * c) * x", "(a + b + c)!" if False else "-(2x + 3x + y)",
+    # constant arithmetic between the coefficients of two multiplied terms, with NON-integer coefficients
+    "4n * 2.5", "(7q * 2.5y^3) * x", "(u^3 * 3.5c^6) * 7u^3", "4n * 2.5 = 10", "2.5x * 4", "0.5a * (2b * c)", "1.5x * 2.5y", "(0.1p * 3) * q", "2.5 * (4n * 0.5)",
+    # a coefficient times a power with a negated base; a negated power with a NON-literal exponent; both next to like terms
+    "2x^2 + 3(-x)^2", "3(-x)^2 * x", "y + (2x^2 + 3(-x)^2)", "5(-x)^4 * 2x", "3 * (-x)^2 + x^2", "-x^n + x", "-x^n * x^2", "-a^(k + 1) + a", "-x^(2 + 3) * x", "x - x^n", "-x^y + -x^y",
+    # a negation over a power of a constant with a non-integer exponent (its printed form must keep the sign outside the power)
+    "-(5^1.5)", "-(2^3.5 * x)", "7 - -(4^1.5 / x)", "-(4^(1 + 0.5))", "-(5^1.25) + x", "-(9^0.5)", "-(3^2.5)", "x * -(2^1.5)", "-(5^3)", "-(5^2)",
     # a power with a NEGATED base next to a term in the same variable (even exponents: (-x)^2 is x^2, not -x^2)
     "(-x)^2 * x^3", "(-y)^4 + 3y^4", "(-x)^3 * x", "2x^2 + (-x)^2", "(-x)^2 * x^3 = 32", "(-2x)^2 + x^2", "(-x)^0.5 * x", "-x^2 + (-x)^2",
     # constant folds whose product / sum is the neutral element, at the ROOT of the tree
